@@ -53,7 +53,13 @@ def case(draw):
         elif k <= 7:
             ops.append(['excl', draw(st.sampled_from(['self', 'self', 'other'])), draw(st.sampled_from(CORES))])
         elif k == 8:
-            ops.append(['define', draw(st.sampled_from(['W', 'DIV', 'T', 'G', 'DEM_GOOD'])), draw(st.sampled_from(DEFS))])
+            if draw(st.booleans()):
+                ops.append(['define', draw(st.sampled_from(['W', 'DIV', 'T', 'G', 'DEM_GOOD'])), draw(st.sampled_from(DEFS))])
+            else:
+                # a variable created as an empty placeholder and built up term by term (the SUP_xxx pattern)
+                ops.append(['build', draw(st.sampled_from(['W', 'DIV', 'T', 'DEM_GOOD', 'SUP_LAB'])),
+                            draw(st.sampled_from(['', '0.0'])),
+                            draw(st.lists(st.sampled_from(['p', 'q', '-p', 'G', '2*G', 'p*q', '-G']), min_size=1, max_size=3))])
         else:
             ops.append(['flow', draw(st.sampled_from(['', '  '])), True, None])
     names = ATOMS + ['DEM_GOOD', 'SUP_LAB', 'LAG_F', 'OTHER__X']
@@ -145,6 +151,28 @@ def run(spec):
             _, name, rhs = op
             s.AddVariable(name, 'defined', rhs)
             defs[name] = rhs
+        elif op[0] == 'build':
+            _, name, first, terms = op
+            s.AddVariable(name, 'built term by term', first)
+            for t in terms:
+                s.AddTermToEquation(name, t)
+            total = ' + '.join('(' + t + ')' for t in terms)
+            # if the terms cancel identically the definition is a zero again (may be overwritten); otherwise it must survive
+            # (decided under fixed generic valuations, not under the generated ones, which shrinking makes degenerate)
+            generic = [{'p': Fraction(3), 'q': Fraction(5), 'G': Fraction(7), 'W': Fraction(11), 'DIV': Fraction(13),
+                        'T': Fraction(17)},
+                       {'p': Fraction(-19, 3), 'q': Fraction(23, 7), 'G': Fraction(29, 5), 'W': Fraction(31), 'DIV': Fraction(37),
+                        'T': Fraction(41)}]
+            try:
+                zero = all(expr.frac_eval(total, env) == 0 for env in generic)
+            except Exception:
+                zero = False
+            if not zero:
+                defs[name] = total
+            elif s.EquationBlock[name].RHS() in ('', '0.0'):
+                defs[name] = ''          # cancelled down to the canonical zero: may be (re)defined later
+            else:
+                defs[name] = None        # zero in value but not in spelling (2*G-2.0*G): not asserted either way
         # ---- invariant after every step
         f_txt = s.EquationBlock['F'].RHS()
         inc_txt = s.EquationBlock['INC'].RHS()
@@ -184,8 +212,14 @@ def run(spec):
             got = s.EquationBlock[name].RHS()
             if want.strip() == '':
                 ok = got.strip() in ('', '0.0')
+            elif got.replace(' ', '') == want.replace(' ', ''):
+                ok = True
             else:
-                ok = got.replace(' ', '') == want.replace(' ', '')
+                # definitions are compared by value (a term-built definition is rendered in the code's own spelling)
+                try:
+                    ok = all(expr.frac_eval(got, env) == expr.frac_eval(want, env) for env in envs)
+                except Exception:
+                    ok = False
             if not ok:
                 raise Violation('C06/definition', 'after ops %r: variable %r is defined as %r, expected %r' %
                                 (spec['ops'][:i + 1], name, got, want))
